@@ -326,6 +326,33 @@ def shape_rule(rep, prog, cfg):
     rep.check(not gone, rule, cfg + "/all reference commands present", "definitions.rs", "commands of the reference table no longer exist: %s" % sorted(gone))
 
 
+def _merge_fmt(path):
+    """canonical form of one path of write events: adjacent formatted writes are one formatted write of the concatenated template
+    and arguments (`write!("{}:", a); write!("{}", b)` == `write!("{}:{}", a, b)`; the template bytes end in a 0 terminator)"""
+    import ast
+    import re as _re
+    evs = path.split(" ; ")
+    out = []
+    for ev in evs:
+        m = _re.match(r"^fmt\(tpl:(b(?:'|\").*?(?:'|\")); (.*)\)$", ev) or _re.match(r"^fmt\(tpl:(b(?:'|\").*?(?:'|\"))\)$", ev)
+        if m and out and out[-1][0] == "fmt":
+            try:
+                t1, t2 = out[-1][1], ast.literal_eval(m.group(1))
+            except Exception:
+                out.append(("raw", ev))
+                continue
+            args = out[-1][2] + ([m.group(2)] if m.lastindex and m.lastindex >= 2 and m.group(2) else [])
+            out[-1] = ("fmt", (t1[:-1] if t1.endswith(b"\x00") else t1) + t2, args)
+        elif m:
+            try:
+                out.append(("fmt", ast.literal_eval(m.group(1)), [m.group(2)] if m.lastindex and m.lastindex >= 2 and m.group(2) else []))
+            except Exception:
+                out.append(("raw", ev))
+        else:
+            out.append(("raw", ev))
+    return " ; ".join(x[1] if x[0] == "raw" else ("fmt(tpl:%r; %s)" % (x[1], ", ".join(x[2])) if x[2] else "fmt(tpl:%r)" % (x[1],)) for x in out)
+
+
 def render_rule(rep, prog, cfg):
     rule = "C15.render"
     n = 0
@@ -354,6 +381,8 @@ def render_rule(rep, prog, cfg):
         if problems:
             rep.fail(rule, "%s/%s" % (cfg, name), b.loc(b.span), "Argument::render for %s not analysable (%s %s)" % (name, problems[:1], got))
             continue
+        if got != sorted(exp) and sorted(_merge_fmt(x) for x in got) == sorted(_merge_fmt(x) for x in exp):
+            got = sorted(exp)        # the same bytes, written by a different number of `write!`s
         rep.check(got == sorted(exp), rule, "%s/%s" % (cfg, name), b.loc(b.span),
                   "Argument::render for %s writes %s; the reviewed reference is %s" % (name, got, sorted(exp)), detail={"events": got})
     rep.floor(rule, cfg + "/Argument impls", n, 16)
